@@ -10,8 +10,8 @@ from rtmon import dtlib
 
 LEVEL = 'exploration'
 RULE = ('dates 1900-01-01..2099-12-31 (all month ends and leap days of sampled years, day<=12 swaps, special dates, seeded rest) x '
-        'layouts (en-us: 12 layouts exhaustively; es-es, es-mx, fr-fr, pt-br, it-it, de-de, nl-nl: ISO, d/m/yyyy, dd/mm/yyyy, d-m-yyyy, '
-        'month-name; zh-cn: ISO, yyyy/m/d, yyyy-m-d, yyyy年m月d日) x carrier sentences x an independent random reference in 1950..2090 '
+        'layouts (en-us: 15 layouts exhaustively incl. blanks around the separators and backslashes; es-es, es-mx, fr-fr, pt-br, it-it, de-de, nl-nl: ISO, '
+        'd/m/yyyy, dd/mm/yyyy, d-m-yyyy, d.m.yyyy, dd.mm.yyyy, the same with blanks around the separators, d\\m\\yyyy, month-name; zh-cn: ISO, yyyy/m/d, yyyy-m-d, yyyy年m月d日) x carrier sentences x an independent random reference in 1950..2090 '
         'per case; 15% of the cases are re-run with a second reference (and a virtual wall clock in another century) and must give the same '
         'entity list. non-trivial = one date entity returned; distinct = distinct (culture, query).')
 EXHAUSTIVE = False
